@@ -595,11 +595,13 @@ def inline_top(prog, e, crate="svgbob", rounds=3, keep=None):
     return e
 
 
-def bool_function(prog, path, atom, depth=3, max_paths=64, keep=None, result=None, free=False):
+def bool_function(prog, path, atom, depth=3, max_paths=64, keep=None, result=None, free=False, _level=0):
     """the boolean function a loop-free body computes over the atomic tests `atom` recognises (atom(expr) -> name | None),
     decided path by path with crate-local helpers inlined: returns (atoms, {assignment tuple: bool}) or (None, reason).
     `a && b`, `if !a { return false } b`, `match (a, b) {..}` and a helper in between all give the same table.
-    atom may return ("not", name) for the complement of a named test."""
+    atom may return ("not", name) for the complement of a named test.  A test that is itself a call of a crate-local
+    boolean function with control flow of its own (`fn is_blank(ch) -> bool { ch == NUL || ch.is_whitespace() }`) is
+    decided recursively, with the arguments substituted, and enters the table as that sub-function."""
     import itertools
     from .mirlib import paths
     ps = paths(prog, path, max_paths=max_paths)
@@ -608,28 +610,44 @@ def bool_function(prog, path, atom, depth=3, max_paths=64, keep=None, result=Non
     norm = lambda e: strip(simplify(inline_calls(prog, e, depth=depth, keep=keep)))
     rows = []
     names = set()
-    for conds, ret in ps:
-        cs = []
-        for c, tk in conds:
-            c = norm(c)
-            neg = False
-            while c[0] == "un" and c[1] == "Not":
-                c, neg = strip(c[2]), not neg
-            a = atom(c)
-            if a is None and free:
-                # an unrecognised test becomes a free variable `?<expr>`: the caller checks that the result does not
-                # depend on it (branches that only compute the value, not the decision)
-                a = "?" + _short(c)
-            if a is None:
-                return None, "a branch on `%s` is not one of the expected tests" % _short(c)
+
+    def unnot(c):
+        neg = False
+        while c[0] == "un" and c[1] == "Not":
+            c, neg = strip(c[2]), not neg
+        return c, neg
+
+    def classify(c_raw, as_result=False):
+        """-> ('atom', name, neg) | ('sub', atoms, table, neg) | None"""
+        c, neg = unnot(norm(c_raw))
+        a = atom(c)
+        if a is not None:
             if isinstance(a, tuple) and a[0] == "not":
                 a, neg = a[1], not neg
             names.add(a)
-            cs.append((a, tk, neg))
-        r = norm(ret)
-        neg = False
-        while r[0] == "un" and r[1] == "Not":
-            r, neg = strip(r[2]), not neg
+            return ("atom", a, neg)
+        c0, neg0 = unnot(strip(simplify(c_raw)))
+        if c0[0] == "call" and isinstance(c0[1], str) and c0[1] in prog.bodies and "{closure" not in c0[1] and _level < 3 and \
+                prog.bodies[c0[1]].get("crate") == prog.bodies[path].get("crate") and len(c0[2]) == prog.bodies[c0[1]]["argc"] and c0[1] != path:
+            args = c0[2]
+            sa, st = bool_function(prog, c0[1], lambda x: atom(strip(simplify(subst_params(x, args)))), depth, max_paths, keep, None, False, _level + 1)
+            if sa is not None:
+                names.update(sa)
+                return ("sub", tuple(sa), st, neg0)
+        if free and not as_result:
+            a = "?" + _short(c)
+            names.add(a)
+            return ("atom", a, neg)
+        return None
+
+    for conds, ret in ps:
+        cs = []
+        for c, tk in conds:
+            k = classify(c)
+            if k is None:
+                return None, "a branch on `%s` is not one of the expected tests" % _short(unnot(norm(c))[0])
+            cs.append((k, tk))
+        r, neg = unnot(norm(ret))
         if result is not None:
             # the caller's reading of the returned value as a truth value (e.g. "is Some")
             v = result(r)
@@ -639,28 +657,34 @@ def bool_function(prog, path, atom, depth=3, max_paths=64, keep=None, result=Non
         elif r[0] == "const" and r[1] in ("int", "bool") and r[2] in (0, 1, True, False):
             rv = ("const", bool(r[2]) != neg)
         else:
-            a = atom(r)
-            if a is None:
+            k = classify(ret, as_result=True)
+            if k is None:
                 return None, "the result `%s` is not one of the expected tests" % _short(r)
-            if isinstance(a, tuple) and a[0] == "not":
-                a, neg = a[1], not neg
-            names.add(a)
-            rv = ("atom", a, neg)
+            rv = k
         rows.append((cs, rv))
     atoms = sorted(names)
+
+    def value(k, env):
+        if k[0] == "atom":
+            return env[k[1]] != k[2]
+        return st_lookup(k, env) != k[3]
+
+    def st_lookup(k, env):
+        return k[2][tuple(env[a] for a in k[1])]
+
     table = {}
     for asg in itertools.product((False, True), repeat=len(atoms)):
         env = dict(zip(atoms, asg))
         val = None
         for cs, rv in rows:
             ok = True
-            for a, tk, neg in cs:
-                v = int(env[a] != neg)
+            for k, tk in cs:
+                v = int(value(k, env))
                 if (isinstance(tk, tuple) and v in tk[1]) or (not isinstance(tk, tuple) and v != tk):
                     ok = False
                     break
             if ok:
-                val = rv[1] if rv[0] == "const" else (env[rv[1]] != rv[2])
+                val = rv[1] if rv[0] == "const" else value(rv, env)
                 break
         if val is None:
             return None, "no path covers %r" % (env,)
